@@ -4,7 +4,7 @@
    a sample of every run (the in-kernel sample), so the extraction itself is checked. *)
 From Coq Require Import List Ascii String Bool Arith NArith ZArith.
 Require Import Show.
-Require V1 V5 V6 V3 V11 A1 D3 M6 M6b GS R2.
+Require V1 V5 V6 V3 V11 A1 D3 M6 M6b GS R2 AR AR2 AR3.
 Import ListNotations.
 Open Scope string_scope.
 Open Scope list_scope.
@@ -185,9 +185,26 @@ Definition run_deb822 (op : string) (a : list str) : option str :=
           end)
   else None.
 
+(* ---- ar reader: C13 C15 ---- *)
+Definition show_entry (buf : str) (e : AR.entry) : str :=
+  let d := show_data (AR.data_of buf e) in
+  unwords [lit "("; hx (AR.e_name e); show_Z (AR.e_ts e); show_Z (AR.e_uid e); show_Z (AR.e_gid e);
+           hx (AR.e_mode e); show_Z (AR.e_size e); d; lit "re"; d; lit ")"].
+Definition ar_open_z (buf : str) : option (list AR.entry * bool) :=
+  if GS.has_prefix AR2.magic buf then AR3.iterate_z (S (List.length buf)) buf 8 else None.
+Definition run_ar (op : string) (a : list str) : option str :=
+  let g n := nth_arg n a in
+  if op =? "ariter" then
+    Some (match ar_open_z (g 0) with
+          | None => lit "notar"
+          | Some (es, clean) => show_list (show_entry (g 0)) es ++ (if clean then lit " eof" else lit " err")
+          end)
+  else None.
+
 Definition run (op : string) (hexargs : list str) : str :=
   let a := map unhex hexargs in
   match run_version op a with Some r => r | None =>
   match run_dep op a with Some r => r | None =>
   match run_deb822 op a with Some r => r | None =>
-  lit "unknown-op" end end end.
+  match run_ar op a with Some r => r | None =>
+  lit "unknown-op" end end end end.
